@@ -213,7 +213,8 @@ def run_group(group, tier, seed, extra_env=None, force=False):
             if sd is not None:
                 seed_args = [f'seed={sd}']
         rc, o2 = sh([DRIVER_BIN, os.path.join(out, 'keys.txt'), os.path.join(out, 'ops.txt'), os.path.join(out, 'model.txt')] + (['lite'] if group == 'pgn' else [])
-                    + ([f'm0every={m0every}'] if m0every > 1 else []) + seed_args, timeout=7200)
+                    + ([f'm0every={m0every}'] if m0every > 1 else []) + seed_args
+                    + (['rehash'] if (extra_env or {}).get('VERIF_CORPUS') else []), timeout=7200)
         t2 = time.time()
         if rc != 0:
             raise RuntimeError(f'driver failed on group {group}: rc={rc}: {o2[-400:]}')
@@ -306,6 +307,11 @@ def compare_group(prop, group, rundir, stats):
             if I.get('_bare') != M1.get('_bare'):
                 findings.append(Finding(prop, group, lineno, opl, op, '_line', il[:500], m1s[:500], m0s[:500],
                                         'decisive' if I.get('_bare') == 'panic' else 'corr', list(session_ops)))
+            continue
+        if op == 'rx' and I.get('rx') == 'nopattern':
+            # the harness could not find the three pattern literals in the current games.rs (the source was restructured):
+            # this tie is lost for the run (recorded), the importer itself is still compared through g.pgn
+            stats['rx_patterns_not_found'] = stats.get('rx_patterns_not_found', 0) + 1
             continue
         for k in ops_keys[op]:
             iv, mv, sv = I.get(k), M1.get(k), M0.get(k)
@@ -682,7 +688,7 @@ def run_property(prop, tier, seed):
     )
     if leanchecker is not None:
         cov['leanchecker'] = leanchecker
-    for k in ('transposition_keys', 'distinct_moves_roundtripped', 'invalid_positions', 'key_table', 'corpus_ops'):
+    for k in ('transposition_keys', 'distinct_moves_roundtripped', 'invalid_positions', 'key_table', 'corpus_ops', 'rx_patterns_not_found'):
         if k in stats:
             cov[k] = stats[k]
     if level != 'proof' or obligations == 0:
